@@ -251,6 +251,90 @@ func VerifC03_RestartGenerations() {
 	sym.Reach("done")
 }
 
+func verifOvertakeScenario(checkBeforeShutdown bool) {
+	defer verifScale()()
+	defs.BufferMaxNumChunksInQueue, defs.BufferMaxNumChunksInMemory = 4, 4
+	fs := fsmodel.Reset()
+	n := 1 + sym.Choice("recoveredFiles", 2)
+	var datas [2][]byte
+	for i := 0; i < n; i++ {
+		datas[i] = sym.BigBytes("data", 1, 100)
+		fs.Files[verifIDs[i]] = append([]byte{}, datas[i]...)
+	}
+	m := fakes.NewMetrics()
+	buf := newBufferer(logger.Root(), "/root", "id1", verifMatchFF, m, 1<<30, false).(*bufferer)
+	buf.Start()
+	cons := &verifConsumer{args: buf.RegisterNewConsumer()}
+	sym.Yield() // the feeder may start working on the recovered chunks
+	buf.Accept(base.LogChunk{ID: verifIDs[4], Data: []byte{9, 9, 9}})
+	go cons.run(nil) // confirms everything
+	check := func(label string) {
+		for j := range cons.taken {
+			want := verifIDs[4]
+			if j < n {
+				want = verifIDs[j]
+			}
+			sym.Assert(j <= n && cons.taken[j].ID == want, label)
+		}
+	}
+	if checkBeforeShutdown {
+		time.Sleep(time.Second) // quiescence: the feeder and the consumer have moved everything they can
+		sym.Assert(len(cons.taken) == n+1, "with a consumer that keeps up every queued chunk reaches it")
+		check("chunks recovered from disk reach the consumer before a chunk accepted later, in creation order")
+		buf.Destroy()
+	} else {
+		sym.Yield()
+		buf.Destroy()
+		check("chunks reach the consumer in creation order [consumer still reading the window while the feeder saves it at shutdown]")
+	}
+	sym.Reach("done")
+}
+
+// VerifC05_NewChunkDoesNotOvertakeRecovered: one or two chunk files recovered
+// at start; the feeder goroutine may be suspended at any call inside the
+// buffer package - e.g. after it has taken the last recovered chunk from the
+// queue and before it has loaded it from disk and passed it on - when a new
+// chunk is accepted; the consumer keeps up and the order is looked at before
+// any shutdown: recovered chunks first, in creation order, the new chunk last.
+//
+//verif:native off
+//verif:solver cvc5-int
+//verif:preempt 1
+//verif:preemptcalls github.com/relex/slog-agent/buffer/hybridbuffer
+//verif:delays 1
+//verif:clock virtual
+//verif:reach done
+//verif:paths 200000
+func VerifC05_NewChunkDoesNotOvertakeRecovered() { verifOvertakeScenario(true) }
+
+// VerifC03_NewChunkDoesNotOvertakeRecovered: the same run read for C03 (FIFO across recovery).
+//
+//verif:native off
+//verif:solver cvc5-int
+//verif:preempt 1
+//verif:preemptcalls github.com/relex/slog-agent/buffer/hybridbuffer
+//verif:delays 1
+//verif:clock virtual
+//verif:reach done
+//verif:paths 200000
+func VerifC03_NewChunkDoesNotOvertakeRecovered() { verifOvertakeScenario(true) }
+
+// VerifC05_ShutdownDrainKeepsOrder: the same scenario with the shutdown started
+// while the consumer is still reading: the feeder's final save drains the
+// output window ("consumers already quit") concurrently with a consumer that
+// reads until the window is closed - as the real client's normal stage does.
+// Known finding C05-F1: the consumer can receive a newer chunk while an older
+// one is taken by the feeder and goes back to disk for the next start.
+//
+//verif:native off
+//verif:solver cvc5-int
+//verif:preempt 1
+//verif:preemptcalls github.com/relex/slog-agent/buffer/hybridbuffer
+//verif:delays 1
+//verif:reach done
+//verif:paths 200000
+func VerifC05_ShutdownDrainKeepsOrder() { verifOvertakeScenario(false) }
+
 // VerifC03_NoDirectory: the queue directory cannot be opened: nothing claims to
 // be saved; every chunk is confirmed by the consumer or counted as dropped.
 //
